@@ -432,3 +432,238 @@ def build_reader_iter(args):
             except pyx12.errors.X12Error:
                 pass
     return run, (), {}
+
+
+# ---- bounded native safety net for the envelope machine (C04): whole documents through the real reader ---------------------------
+def _cut_open(segs, rnd):
+    k = rnd.randint(1, max(1, len(segs) - 2))
+    while k > 1 and segs[k - 1].startswith('IEA'):
+        k -= 1
+    return segs[:k]
+
+
+def bounded_envelope(seed, tier):
+    """generated interchanges (1-2 interchanges x 1-3 groups x 1-3 sets x 0-4 body segments incl. HL trees) read by the real
+    X12Reader: a well nested document with true counts and matching, unique control numbers draws NO envelope error; the same
+    document with exactly one injected fault draws exactly the error code of that fault; a trailer with no open header of its kind
+    and a header left open at the end draw at least one; nothing but the documented X12Error is raised"""
+    import io
+    import random
+    import pyx12.x12file
+    import pyx12.errors
+    rnd = random.Random(seed)
+    ENV = ('isa', 'gs', 'st')
+    fails, n = [], 0
+
+    def isa(ctl):
+        return 'ISA*00*          *00*          *ZZ*SENDER         *ZZ*RECEIVER       *040608*1333*U*00401*%09d*0*P*:' % ctl
+
+    def build(fault=None):
+        """-> (segments, expected set of (kind, code))"""
+        segs, exp = [], set()
+        target = rnd.randint(0, 3)          # the set (in document order) that carries a set-level fault; the last one if there are fewer
+        seen_sets = [0]
+        n_isa = rnd.randint(1, 2)
+        isa_ids = rnd.sample(range(1, 900), n_isa)
+        if fault == 'dup-isa' and n_isa == 2:
+            isa_ids[1] = isa_ids[0]
+            exp.add(('isa', '025'))
+        for ii, ictl in enumerate(isa_ids):
+            segs.append(isa(ictl))
+            n_gs = rnd.randint(1, 3)
+            gs_ids = rnd.sample(range(1, 900), n_gs)
+            if fault == 'dup-gs' and n_gs >= 2 and ii == 0:
+                gs_ids[1] = gs_ids[0]
+                exp.add(('gs', '6'))
+            for gi, gctl in enumerate(gs_ids):
+                segs.append('GS*HC*S*R*20040608*1333*%d*X*004010X098A1' % gctl)
+                n_st = rnd.randint(1, 3)
+                st_ids = rnd.sample(range(1, 9000), n_st)
+                if fault == 'dup-st' and n_st >= 2 and ii == 0 and gi == 0:
+                    st_ids[1] = st_ids[0]
+                    exp.add(('st', '23'))
+                for si, sctl in enumerate(st_ids):
+                    last_set = (ii == n_isa - 1 and gi == n_gs - 1 and si == n_st - 1)
+                    first = (seen_sets[0] == target) or (last_set and seen_sets[0] < target)
+                    seen_sets[0] += 1
+                    segs.append('ST*837*%04d' % sctl)
+                    body = ['BHT*0019*00*1*20040608*1333*CH']
+                    nhl = rnd.randint(0, 6)
+                    hstack = []
+                    for h in range(1, nhl + 1):
+                        num = h
+                        if not hstack:
+                            parent = ''
+                            hstack = [h]
+                        else:
+                            k = rnd.randrange(len(hstack))
+                            parent = str(hstack[k])
+                            closed = [x for x in range(1, h) if x not in hstack[:k + 1]]
+                            if fault == 'hl-parent' and first and h == nhl:
+                                # a parent that is not on the open path: closed earlier in this set, or never seen in this set
+                                parent = str(rnd.choice(closed)) if closed and rnd.random() < 0.7 else str(h + rnd.randint(1, 4))
+                                if parent != str(hstack[k]) and int(parent) not in hstack:
+                                    exp.add(('seg', 'HL2'))
+                                else:
+                                    parent = str(h + 9)
+                                    exp.add(('seg', 'HL2'))
+                            hstack = hstack[:k + 1] + [h]
+                        if fault == 'hl-seq' and first and h == nhl:
+                            num = h + 5
+                            exp.add(('seg', 'HL1'))
+                        body.append('HL*%s*%s*20*1' % (num, parent))
+                    for _ in range(rnd.randint(0, 2)):
+                        body.append('REF*EA*%d' % rnd.randint(1, 99))
+                    nlx = rnd.randint(0, 3) if nhl else 0
+                    if nlx:
+                        body.append('CLM*%d*100' % rnd.randint(1, 999))       # service lines are numbered within a claim
+                    for x in range(1, nlx + 1):
+                        lx = str(x)
+                        if fault == 'lx-count' and first and x == nlx:
+                            lx = rnd.choice([str(x + 1), '0' + str(x), 'A', ''])
+                            exp.add(('seg', 'LX'))
+                        body.append('LX*%s' % lx if lx != '' else 'LX')
+                    segs += body
+                    cnt = len(body) + 2
+                    if fault == 'se-count' and first:
+                        cnt += rnd.choice([-1, 1, 7])
+                        exp.add(('st', '4'))
+                    sid = '%04d' % sctl
+                    if fault == 'se-id' and first:
+                        sid = '%04d' % (sctl + 1)
+                        exp.add(('st', '3'))
+                    if not (fault == 'no-se' and first):
+                        segs.append('SE*%d*%s' % (cnt, sid))
+                gcnt, gid = n_st, str(gctl)
+                if fault == 'ge-count' and ii == 0 and gi == 0:
+                    gcnt += 1
+                    exp.add(('gs', '5'))
+                if fault == 'ge-id' and ii == 0 and gi == 0:
+                    # control numbers are compared as TEXT: a different rendering of the same number is a mismatch too
+                    gid = rnd.choice([str(gctl + 1), '0' + gid, gid + ' ', 'B99'])
+                    exp.add(('gs', '4'))
+                segs.append('GE*%d*%s' % (gcnt, gid))
+            icnt, iid = n_gs, ictl
+            if fault == 'iea-count' and ii == 0:
+                icnt += 1
+                exp.add(('isa', '021'))
+            if fault == 'iea-id' and ii == 0:
+                iid += 1
+                exp.add(('isa', '001'))
+            segs.append('IEA*%d*%09d' % (icnt, iid))
+        return segs, exp
+
+    def read(segs):
+        r = pyx12.x12file.X12Reader(io.StringIO('~\n'.join(segs) + '~\n'))
+        r.check_837_lx = True          # what x12n_document switches on for an 837 after the map lookup
+        errs = []
+        for s in r:
+            errs += r.pop_errors()
+        r.cleanup()
+        errs += r.pop_errors()
+        return set((e[0], e[1]) for e in errs if e[0] in ENV or (e[0] == 'seg' and e[1] in ('HL1', 'HL2', 'LX')))
+
+    faults = [None, 'dup-isa', 'dup-gs', 'dup-st', 'se-count', 'se-id', 'ge-count', 'ge-id', 'iea-count', 'iea-id', 'hl-seq', 'hl-parent', 'hl-parent',
+              'hl-parent', 'hl-parent', 'lx-count']
+    rounds = 40 if tier == 'quick' else 400
+    for k in range(rounds):
+        for fault in faults:
+            segs, exp = build(fault)
+            n += 1
+            try:
+                got = read(segs)
+            except pyx12.errors.X12Error:
+                continue
+            except Exception as e:
+                if len(fails) < 8:
+                    fails.append({'input': {'fault': fault, 'segments': segs[:40]}, 'detail': 'raised %s: %s' % (type(e).__name__, str(e)[:80])})
+                continue
+            if got != exp and len(fails) < 8:
+                fails.append({'input': {'fault': fault, 'segments': segs[:40]},
+                              'detail': 'envelope errors %r, the recount of the document gives %r' % (sorted(got), sorted(exp))})
+        # at-least-one clauses
+        segs, _ = build(None)
+        for lab, s2 in (('trailer without header', [segs[0], rnd.choice(['SE*1*0001', 'GE*1*1', 'IEA*1*000000001'])] + segs[1:]),
+                        ('input ends with headers open', _cut_open(segs, rnd))):
+            if lab.startswith('trailer') and s2[1].startswith('IEA'):
+                continue        # an IEA right after ISA closes that interchange properly (zero groups): not a misplaced trailer
+            n += 1
+            try:
+                got = read(s2)
+            except pyx12.errors.X12Error:
+                continue
+            except Exception as e:
+                if len(fails) < 8:
+                    fails.append({'input': {'case': lab, 'segments': s2[:40]}, 'detail': 'raised %s: %s' % (type(e).__name__, str(e)[:80])})
+                continue
+            if not [e for e in got if e[0] in ENV] and len(fails) < 8:
+                fails.append({'input': {'case': lab, 'segments': s2[:40]}, 'detail': 'no envelope error although: %s' % lab})
+    return {'function': 'pyx12.x12file.X12Reader (envelope machine, whole documents)', 'evaluations': n,
+            'bound': '%d rounds x (valid + 12 kinds of single faults + 2 at-least-one cases) of generated interchanges, seed %d' % (rounds, seed), 'failures': fails}
+
+
+# ---- bounded native safety net for the writer (C11): whole write histories, read back by the real reader --------------------------
+def bounded_writer(seed, tier):
+    """seeded well-nested write histories (1-2 interchanges x 1-3 groups x 1-3 sets x 0-4 body segments; every trailer is written
+    explicitly with garbage counts, or omitted and left to a later trailer or to Close) under 4 delimiter sets: the text read back by
+    the real X12Reader shows NO envelope error, and the non-trailer segments read back are the ones written, in order"""
+    import io
+    import random
+    import pyx12.x12file
+    import pyx12.segment
+    rnd = random.Random(seed)
+    fails, n = [], 0
+    delims = [('~', '*', ':', '\n'), ('!', '|', '>', ''), ('\n', '^', '&', ''), ('\x1c', '\x1d', '\x1f', '\r\n')]
+    rounds = 60 if tier == 'quick' else 600
+    for k in range(rounds):
+        st, et, sub, eol = delims[k % len(delims)]
+        S = lambda t: pyx12.segment.Segment(t.replace('*', et).replace(':', sub), st, et, sub)
+        hist = []
+        n_isa = rnd.randint(1, 2)
+        for ii in range(n_isa):
+            hist.append('ISA*00*          *00*          *ZZ*SENDER         *ZZ*RECEIVER       *040608*1333*U*00401*%09d*0*P*:' % rnd.randint(1, 999999))
+            n_gs = rnd.randint(1, 3)
+            for gi in range(n_gs):
+                hist.append('GS*HC*S*R*20040608*1333*%d*X*004010X098A1' % rnd.randint(1, 99999))
+                n_st = rnd.randint(1, 3)
+                for si in range(n_st):
+                    hist.append('ST*837*%04d' % rnd.randint(1, 9999))
+                    for _ in range(rnd.randint(0, 4)):
+                        hist.append(rnd.choice(['REF*EA*12', 'NM1*85*2*X:Y*****XX*1', 'DTP*472*D8*20040608', 'HL*1**20*1']))
+                    # a trailer may be left out only where the next thing written is a trailer of an enclosing level or Close
+                    if si < n_st - 1 or rnd.random() < 0.6:
+                        hist.append('SE*%d*%s' % (rnd.randint(0, 99), rnd.choice(['0001', 'X', ''])))
+                if gi < n_gs - 1 or rnd.random() < 0.6:
+                    hist.append('GE*%d*%d' % (rnd.randint(0, 9), rnd.randint(1, 99)))
+            if ii < n_isa - 1 or rnd.random() < 0.6:
+                hist.append('IEA*%d*%09d' % (rnd.randint(0, 9), rnd.randint(1, 99)))
+        n += 1
+        buf = io.StringIO()
+        try:
+            w = pyx12.x12file.X12Writer(buf, st, et, sub, eol, '^')
+            for t in hist:
+                w.Write(S(t) if not t.startswith('ISA') else pyx12.segment.Segment(t.replace('*', et)[:-1] + sub, st, et, sub))
+            w.Close()
+            r = pyx12.x12file.X12Reader(io.StringIO(buf.getvalue()))
+            errs, back = [], []
+            for sg in r:
+                errs += r.pop_errors()
+                back.append(sg)
+            r.cleanup()
+            errs += r.pop_errors()
+        except Exception as e:
+            if len(fails) < 8:
+                fails.append({'input': {'delimiters': [st, et, sub, eol], 'history': hist}, 'detail': 'raised %s: %s' % (type(e).__name__, str(e)[:100])})
+            continue
+        env = [(e[0], e[1]) for e in errs if e[0] in ('isa', 'gs', 'st')]
+        if env and len(fails) < 8:
+            fails.append({'input': {'delimiters': [st, et, sub, eol], 'history': hist}, 'detail': 'what the writer wrote reads back with envelope errors %r' % (env[:4],)})
+        want = [t.split('*')[0] + '|' + '|'.join(t.split('*')[1:]).rstrip('|') for t in hist if t[:2] not in ('SE', 'GE', 'IE') and not t.startswith('ISA')]
+        got = [sg.format('~', '*', ':')[:-1] for sg in back if sg.get_seg_id() not in ('SE', 'GE', 'IEA', 'ISA')]
+        got = [g.split('*')[0] + '|' + '|'.join(g.split('*')[1:]).rstrip('|') for g in got]
+        if got != want and len(fails) < 8:
+            d = [(a, b) for a, b in zip(want, got) if a != b][:2]
+            fails.append({'input': {'delimiters': [st, et, sub, eol], 'history': hist},
+                          'detail': 'segments read back differ from the segments written (%d vs %d): %r' % (len(got), len(want), d)})
+    return {'function': 'pyx12.x12file.X12Writer.Write/Close (whole histories, read back)', 'evaluations': n,
+            'bound': '%d seeded write histories x 4 delimiter sets, seed %d' % (rounds, seed), 'failures': fails}
